@@ -33,7 +33,14 @@ RULE = ('fault enumeration: for k<=4 scripted providers every assignment of outc
         'addresses_per_request: one request, one address per request, a last request of exactly one address, '
         'r == n, r > n, six addresses with the default five) in several address orders, inside cache histories, the '
         'total compared with the provider answers for exactly the requests made plus the cached balances of the '
-        'addresses not requested, and the cached record of every address inspected after every query.  A state is a distinct (configuration, fault '
+        'addresses not requested, and the cached record of every address inspected after every query; incomplete '
+        'provider answers: the providers\' copies of one / several / all transactions of the chain lack the input '
+        'values, the block time or the block height (every transaction x every form; from all providers, from the '
+        'first provider only, from all but the first), so that a RESPONDING provider\'s answer is refused by the '
+        'cache and the cache stays partly filled after a successful query; every history over {address history of '
+        'two addresses (whole / limited), balance, unspent outputs, the transaction itself, its block} x provider '
+        'health, every call judged as before and the coverage claim (last_block) of the cached address records '
+        'checked against the transactions the cache may hold.  A state is a distinct (configuration, fault '
         'assignment, cache state) combination, a transition is one Service call executed on the real '
         'code, every executed call is compared with the reference failover function / cache model; an '
         'evaluation is non-trivial when at least one provider method was invoked or a cached answer was served')
@@ -74,6 +81,15 @@ ASSUMPTIONS = [
     'after_txid and limit, isspent answers 1/0, getblock answers the transactions number (page-1)*limit .. '
     'page*limit-1 of the block in block order - txids when parse_transactions is false - and an empty list '
     'beyond the end or for limit 0)',
+    'incomplete provider copies (no input values / no block time / no block height) are answers of a responding '
+    'provider: they must come back unchanged from the call that fetched them; the cache may refuse them ("Only store '
+    'complete and confirmed transaction in cache"), what is demanded is that later calls still return what a '
+    'responding provider returns, or fail - not the part of the history that happens to be cached',
+    'a cached address record with last_block = h is read as "the cache holds the history of this address up to block '
+    'h" (that is how gettransactions / getbalance use it): every transaction of the address up to h must be a '
+    'complete copy some responding provider returned; the other figures of a record whose last_block is older than '
+    'the providers\' block count (or absent) are answers to no query and are not judged in the family of incomplete '
+    'copies',
     'a block page served from the cache must be exactly that slice of the block, in block order (the docstring: '
     '"with page=2, limit=4 only transaction 5 to 8 are returned"), every transaction equal to a copy that was '
     'stored; copies stored from different providers may be mixed in one page; asking a provider although the '
@@ -366,17 +382,46 @@ def block_dict(c, blockid, pidx, parse_transactions, page, limit, net):
             'pages': max(1, -(-len(names) // limit)) if limit else 1, 'limit': limit}
 
 
+# Completeness of a provider's copy of a confirmed transaction.  Real provider clients differ in what they report:
+# some do not know the value of the inputs (a raw transaction does not hold it), some not the block time or the
+# block height.  The library's cache only accepts complete transactions (docstring of Cache.store_transaction:
+# "Only store complete and confirmed transaction in cache"), so these answers of a RESPONDING provider leave the
+# cache partially filled although the query succeeded.
+FORMS = ('full', 'noval', 'nodate', 'noheight')
+
+
+def tx_form(pidx, name):
+    """Form in which provider pidx reports transaction `name` (scripted per history in E.forms)."""
+    f = E.forms.get(name, 'full')
+    if not isinstance(f, str):
+        f = f[pidx] if pidx < len(f) else 'full'
+    if f not in FORMS:
+        raise HarnessBug('unknown transaction form %r' % (f,))
+    d = fx().by_net[NET].txs[name]
+    if d['coinbase'] or d['height'] is None:
+        return 'full'       # (a coinbase has no input value to report; an unconfirmed transaction is never cached)
+    return f
+
+
+def storable(pidx, name):
+    """May the cache hold provider pidx's copy of the transaction?  Only complete, confirmed transactions."""
+    return tx_form(pidx, name) == 'full' and fx().by_net[NET].txs[name]['height'] is not None
+
+
 def make_tx(net, name, pidx, spent_view=None):
     """A library Transaction object as a provider client would assemble it (cf. MempoolClient._parse_transaction);
-    the provider index is carried in the seconds of the block date, which the cache stores and returns."""
+    the provider index is carried in the seconds of the block date, which the cache stores and returns.
+    The copy is as complete as tx_form(pidx, name) says."""
     from bitcoinlib.transactions import Transaction
     c = fx().by_net[net]
     d = c.txs[name]
     r = d['rtx']
     conf = d['height'] is not None
-    t = Transaction(locktime=r.locktime, version=r.version, network=net, block_height=d['height'],
+    form = tx_form(pidx, name)
+    t = Transaction(locktime=r.locktime, version=r.version, network=net,
+                    block_height=None if form == 'noheight' else d['height'],
                     fee=None, txid=d['txid'], date=T0.replace(second=pidx, tzinfo=timezone.utc) -
-                    timedelta(days=30) if conf else None,
+                    timedelta(days=30) if conf and form != 'nodate' else None,
                     confirmations=(210 - d['height']) if conf else 0, status='confirmed' if conf else 'unconfirmed',
                     coinbase=d['coinbase'], witness_type='segwit' if d['segwit'] else 'legacy')
     for k, i in enumerate(r.vin):
@@ -386,7 +431,7 @@ def make_tx(net, name, pidx, spent_view=None):
         else:
             prevd = c.by_id[i['txid'][::-1].hex()]
             t.add_input(prev_txid=i['txid'][::-1], output_n=i['vout'], unlocking_script=i['script'],
-                        value=d['in'][k]['value'], address=d['in'][k]['addr'],
+                        value=0 if form == 'noval' else d['in'][k]['value'], address=d['in'][k]['addr'],
                         locking_script=prevd['rtx'].vout[i['vout']]['script'], sequence=i['seq'],
                         witnesses=None if r.wit is None else r.wit[k], strict=False)
     for k, o in enumerate(r.vout):
@@ -415,22 +460,26 @@ def tx_summary(t):
         return {'unreadable': repr(e)[:200]}
 
 
-def ref_tx_summary(net, name, pidx):
-    """The same read-out computed from the reference chain only."""
+def ref_tx_summary(net, name, pidx, form=None):
+    """The same read-out computed from the reference chain only, as complete as provider pidx reports it
+    (form: the scripted form of that provider's copy unless given)."""
     c = fx().by_net[net]
     d = c.txs[name]
     r = d['rtx']
+    if form is None:
+        form = tx_form(pidx, name)
     ins = []
     for k, i in enumerate(r.vin):
-        ins.append([i['txid'][::-1].hex(), i['vout'], d['in'][k]['value'], i['script'].hex(), i['seq'],
-                    d['in'][k]['addr']])
+        ins.append([i['txid'][::-1].hex(), i['vout'], 0 if form == 'noval' else d['in'][k]['value'],
+                    i['script'].hex(), i['seq'], d['in'][k]['addr']])
     outs = [[o['value'], o['script'].hex(), d['out'][k], k] for k, o in enumerate(r.vout)]
     conf = d['height'] is not None
     tin = sum(i['value'] for i in d['in'])
     fee = None if d['coinbase'] else tin - sum(o['value'] for o in r.vout)
     return {'txid': d['txid'], 'version': r.version, 'locktime': r.locktime, 'ins': ins, 'outs': outs,
-            'height': d['height'],
-            'date': (T0.replace(second=pidx) - timedelta(days=30)).isoformat() if conf else None,
+            'height': None if form == 'noheight' else d['height'],
+            'date': (T0.replace(second=pidx) - timedelta(days=30)).isoformat() if conf and form != 'nodate'
+            else None,
             'fee': fee, 'raw': d['raw'], 'coinbase': d['coinbase'], 'wt': 'segwit' if d['segwit'] else 'legacy'}
 
 
@@ -469,6 +518,7 @@ class _Env:
     installed = False
     ctor_args = None
     pe = []            # one record per Service._provider_execute
+    forms = {}         # transaction name -> completeness form of the providers' copies (str, or list per provider)
 
 
 E = _Env
@@ -486,6 +536,7 @@ def reset_env(net=NET):
     E.perm = None
     E.shuffled = None
     E.pe = []
+    E.forms = {}
 
 
 class _FakeRandom:
@@ -1610,7 +1661,10 @@ def sub_hist(case):
     states = set()
     nt = []
     n = 0
+    forms = case.get('forms') or {}
     cfgid = '%s/%s/%d%d%d' % (case['family'], net, minp, maxp, maxe)
+    if forms:
+        cfgid += '/' + forms_tag(forms)
     from bitcoinlib.networks import Network
     nw = Network(net)
     default_fee = min(max(nw.fee_default, nw.fee_min), nw.fee_max) if nw.fee_default else None
@@ -1628,11 +1682,14 @@ def sub_hist(case):
 
     for hist in case['hists']:
         reset_env(net)
+        E.forms = forms
         E.ranks = _ranks_for(order)
         db = env.fresh_db_path('c20h')
         model = CacheModel()
         srv = None
         old = []
+        seen = set()
+        cut = False
         try:
             set_health('H')
             srv = new_service(setname, net, cfg, db)
@@ -1686,14 +1743,24 @@ def sub_hist(case):
                     if rdev:
                         dev, detail = rdev, rdetail
                         method = 'after_' + method
+                if not dev and case['family'] in COVERAGE_ADDRESSES and ev[0] == 'Q':
+                    rdev, rdetail = judge_address_coverage(srv, model, c, COVERAGE_ADDRESSES[case['family']], seen)
+                    if rdev:
+                        dev, detail = rdev, rdetail
+                        method = 'after_' + method
+                        # (known defect: from here on the cache is in a state the model does not describe)
+                        cut = rdev.endswith(NO_HEIGHT)
                 if dev:
                     d = {'family': case['family'], 'cfg': cfg, 'net': net, 'history': hist[:step + 1],
+                         'provider_copies': forms,
                          'clock': E.clock, 'observed': _obs_json(obs),
                          'queries': [{x: r.get(x) for x in ('method', 'called', 'errors', 'results')}
                                      for r in E.pe][:8]}
                     d.update(detail or {})
                     devs.add('%s|%s' % (method, dev), d)
                 states.add(jh([cfgid, model.canon(E.clock), ev[-1]]))
+                if cut:
+                    break
         finally:
             close_service(srv)
             for o in old:
@@ -1737,6 +1804,73 @@ def judge_address_records(srv, model, c, addresses, balance_only=()):
             return 'cached_address_record|n_txs_differs_from_provider_answers', \
                 {'address': name, 'info': {k: v for k, v in info.items() if k != 'address'},
                  'transactions': len(addr_history(c, address))}
+    return None, None
+
+
+COVERAGE_ADDRESSES = {'incomplete': ('Y', 'X', 'W')}
+TIP = 200       # lowest block count a provider reports
+
+
+def forms_tag(forms):
+    return ','.join('%s=%s' % (k, v if isinstance(v, str) else '/'.join(v)) for k, v in sorted(forms.items()))
+
+
+def ref_uncovered(history, heights, last_block, held):
+    """Reference for the coverage claim of a cached address record: `last_block` says that the cache holds the
+    history of the address up to that block.  history: transactions of the address, oldest first; heights: name ->
+    block height; held: names the cache may hold.  Returns (gap, newest): the transactions up to last_block that
+    the cache never held, split into those that lie before a transaction it holds and those after the last one."""
+    due = [n for n in history if heights[n] <= last_block]
+    have = [k for k, n in enumerate(due) if n in held]
+    last = have[-1] if have else -1
+    gap = [n for k, n in enumerate(due) if n not in held and k < last]
+    newest = [n for k, n in enumerate(due) if n not in held and k > last]
+    return gap, newest
+
+
+NO_HEIGHT = 'last_block_is_block_count_although_a_transaction_was_refused_for_missing_block_height'
+
+
+def judge_address_coverage(srv, model, c, addresses, seen):
+    """The cached record of an address carries last_block = "the history of this address is in the cache up to this
+    block": gettransactions does not ask any provider and getbalance serves the cached balance once last_block
+    reaches the block count.  So every transaction of the address up to last_block must be one the cache may hold (a
+    complete copy that some responding provider returned).  A record that claims to be current (last_block at the
+    providers' block count) must also hold the figures of the whole chain; a record with an older or without a
+    last_block is a bookmark whose figures no query is answered from, and they are not judged here (the families
+    addr / bal / batch, where every provider copy is complete, judge them after every query).  seen: (address, class) pairs already reported in this history (the record stays as it is until it is
+    written again; it is reported once, at the call that wrote it)."""
+    for name in addresses:
+        address = _addr(c, name)
+        try:
+            info = srv.getcacheaddressinfo(address)
+        except Exception as e:
+            return 'getcacheaddressinfo|raises_%s' % type(e).__name__, {'address': name}
+        lb = info.get('last_block')
+        if lb is not None and (isinstance(lb, bool) or not isinstance(lb, int)):
+            return 'cached_address_record|last_block_not_a_number', {'address': name, 'last_block': repr(lb)}
+        if lb:
+            hist = addr_history(c, address)
+            held = set(n for n in hist if [x for x in model.tx.get(c.txs[n]['txid'], ()) if x[0] == 'ok'])
+            gap, newest = ref_uncovered(hist, dict((n, c.txs[n]['height']) for n in hist), lb, held)
+            if gap or newest:
+                # why the cache does not hold them: every incomplete provider copy lacks the block height (the
+                # library then has no height to step the record back to) / anything else
+                cause = set(tx_form(p, n) for n in gap + newest for p in range(3)) - set(['full'])
+                cls = NO_HEIGHT if cause == set(['noheight']) and lb >= TIP else \
+                    'last_block_covers_newest_transactions_the_cache_never_held' if newest else \
+                    'last_block_covers_gap_before_a_cached_transaction'
+                if (name, cls) in seen:
+                    continue
+                seen.add((name, cls))
+                return 'cached_address_record|' + cls, \
+                    {'address': name, 'info': {k: v for k, v in info.items() if k != 'address'},
+                     'address_history': [[n, c.txs[n]['height']] for n in hist], 'cache_may_hold': sorted(held),
+                     'never_held': gap + newest}
+        if lb and lb >= TIP:
+            rdev, rdetail = judge_address_records(srv, model, c, (name,))
+            if rdev:
+                return rdev, rdetail
     return None, None
 
 
@@ -1815,18 +1949,20 @@ def hist_query(srv, model, net, c, method, key, health, outc, order, maxp, maxe,
             cls = outc[answerer]
             if method == 'gettransaction' and minp <= 1:
                 name = c.by_id[args[0]]['name']
-                if cls == 'ok' and name != 'TU':
+                if cls == 'ok' and storable(answerer, name):
                     model.tx.setdefault(args[0], set()).add(('ok', answerer))
                 elif cls == 'mal':
                     other = 'TB' if name != 'TB' else 'TA'
-                    model.tx.setdefault(args[0], set()).add(('mal', other, answerer))
+                    if storable(answerer, other):
+                        model.tx.setdefault(args[0], set()).add(('mal', other, answerer))
             if method == 'getblock' and cls == 'ok':
                 height, parse, page, limit = block_request(args)
                 model.blocks.setdefault(height, set()).add(answerer)
                 if minp <= 1 and parse:
-                    # every transaction of the answered page may now be cached
+                    # every complete transaction of the answered page may now be cached
                     for name in block_page(height, page, limit):
-                        model.tx.setdefault(c.txs[name]['txid'], set()).add(('ok', answerer))
+                        if storable(answerer, name):
+                            model.tx.setdefault(c.txs[name]['txid'], set()).add(('ok', answerer))
             if method == 'estimatefee' and cls == 'ok':
                 model.fee[fee_bucket(args[0])] = (obs['ret'], E.clock + 600, False)
         if method == 'estimatefee' and recs and not failed and default_fee is not None and \
@@ -1863,6 +1999,14 @@ def hist_query(srv, model, net, c, method, key, health, outc, order, maxp, maxe,
                     # a later transaction of this address was cached through another query; the cached
                     # ones are taken for a complete prefix and the providers are only asked for newer ones
                     return 'dev', 'partially_filled_cache|transactions_before_a_cached_one_missing', detail, obs
+            if not recs and set(got_ids) < set(exp_ids) and \
+                    not any(model.tx.get(i) for i in exp_ids if i not in got_ids):
+                # no provider was asked although transactions of the address are in the list that the cache never
+                # held (a provider's copy was incomplete and refused by the cache): the cached part of the history
+                # is served as the whole history - also when no provider would answer, where the call has to fail
+                detail['never_cached'] = [c.by_id[i]['name'] for i in exp_ids if i not in got_ids]
+                return 'dev', 'partially_filled_cache|cached_part_served_as_whole_history_no_provider_asked', \
+                    detail, obs
             if got_ids == exp_ids[:len(got_ids)]:
                 return 'dev', 'list|truncated', detail, obs
             if set(got_ids) < set(exp_ids):
@@ -1875,11 +2019,12 @@ def hist_query(srv, model, net, c, method, key, health, outc, order, maxp, maxe,
                     {'tx': name, 'allowed': sorted(allowed), 'got': tx_summary(t),
                      'ref0': ref_tx_summary(net, name, 0)}, obs
         if minp <= 1:
-            # everything a provider returned in this call may now be cached
+            # every complete transaction a provider returned in this call may now be cached
             for l in obs['log']:
                 if l[1] == 'gettransactions' and l[2] == 'ok':
                     for name in ref_history_after(c, l[3][0], l[3][1])[:l[3][2]]:
-                        model.tx.setdefault(c.txs[name]['txid'], set()).add(('ok', l[0]))
+                        if storable(l[0], name):
+                            model.tx.setdefault(c.txs[name]['txid'], set()).add(('ok', l[0]))
         model.computed.add(address)
         return ('answer' if recs else 'cache'), None, {}, obs
     if method == 'getutxos':
@@ -1895,6 +2040,13 @@ def hist_query(srv, model, net, c, method, key, health, outc, order, maxp, maxe,
             if len(set(map(tuple, got))) < len(got):
                 return 'dev', 'list|duplicate_utxos', detail, obs
             if all(g in exp for g in got):
+                held = [bool(model.tx.get(e[0])) for e in exp]
+                lost = [k for k, e in enumerate(exp) if e not in got]
+                if got and all(not held[k] and any(held[j] and exp[j] in got for j in range(k + 1, len(exp)))
+                               for k in lost):
+                    # the outputs found in the cache are taken for a complete prefix of the list and the providers
+                    # are only asked for newer ones; an older output whose transaction the cache never held is lost
+                    return 'dev', 'partially_filled_cache|utxos_before_a_cached_one_missing', detail, obs
                 return 'dev', 'list|utxos_missing', detail, obs
             return 'dev', 'list|other_utxos', detail, obs
         model.computed.add(args[0])
@@ -1928,7 +2080,7 @@ def sub_ctor(case):
 
 
 SUBS = {'fo': sub_fo, 'fo_testnet': sub_fo, 'fo_special': sub_fo, 'fo_cold': sub_fo, 'order': sub_fo,
-        'multi': sub_multi, 'ctor': sub_ctor, 'hist': sub_hist}
+        'multi': sub_multi, 'ctor': sub_ctor, 'hist': sub_hist, 'incomplete': sub_hist}
 
 
 def selftest():
@@ -1986,6 +2138,32 @@ def selftest():
     assert len(set(chain_balance(c0, _addr(c0, x)) for x in 'YWZ')) == 3
     assert len(batch_thorough_alphabet()) == len(set(json.dumps(e) for e in batch_thorough_alphabet()))
     assert len(FAMILIES['batch']) == len(set(json.dumps(e) for e in FAMILIES['batch']))
+    # incomplete provider copies: the form table, the reference read-out and the coverage reference, hand-computed
+    E.forms = {'TD': ['noval', 'full', 'nodate'], 'TA': 'noheight', 'TC': 'noval', 'TU': 'noval'}
+    try:
+        assert [tx_form(p, 'TD') for p in range(4)] == ['noval', 'full', 'nodate', 'full']
+        assert tx_form(0, 'TA') == 'noheight' and tx_form(2, 'TB') == 'full'
+        assert tx_form(0, 'TC') == 'full' and tx_form(0, 'TU') == 'full'        # coinbase / unconfirmed: as they are
+        assert storable(1, 'TD') and not storable(0, 'TD') and not storable(2, 'TD') and not storable(0, 'TU')
+        r0, r1, r2 = [ref_tx_summary(NET, 'TD', p) for p in range(3)]
+        assert [i[2] for i in r0['ins']] == [0, 0] and [i[2] for i in r1['ins']] == [1500000000, 200000000]
+        assert r0['date'] is not None and r2['date'] is None and r2['ins'] == r1['ins'] and r0['height'] == 103
+        assert ref_tx_summary(NET, 'TA', 0)['height'] is None and ref_tx_summary(NET, 'TA', 0, 'full')['height'] == 101
+        assert tx_diff(r0, r1) == ['ins', 'date'] and tx_diff(r2, r1) == ['date']
+    finally:
+        E.forms = {}
+    assert ref_tx_summary(NET, 'TD', 0)['ins'][0][2] == 1500000000
+    hh = {'a': 10, 'b': 11, 'c': 12, 'd': 13}
+    assert ref_uncovered(['a', 'b', 'c', 'd'], hh, 13, set('abcd')) == ([], [])
+    assert ref_uncovered(['a', 'b', 'c', 'd'], hh, 12, set('abc')) == ([], [])         # bookmark before d
+    assert ref_uncovered(['a', 'b', 'c', 'd'], hh, 200, set('abc')) == ([], ['d'])     # newest one never held
+    assert ref_uncovered(['a', 'b', 'c', 'd'], hh, 200, set('ad')) == (['b', 'c'], [])  # gap before a held one
+    assert ref_uncovered(['a', 'b', 'c', 'd'], hh, 200, set('b')) == (['a'], ['c', 'd'])
+    assert ref_uncovered(['a', 'b'], hh, 9, set()) == ([], []) and ref_uncovered([], hh, 200, set()) == ([], [])
+    for tabs in (FORM_TABLES_QUICK, form_tables_thorough(), PAGE_FORM_TABLES):
+        assert len(set(forms_tag(t) for t in tabs)) == len(tabs)
+        assert all(f in FORMS for t in tabs for v in t.values() for f in ([v] if isinstance(v, str) else v))
+    assert all(t in form_tables_thorough() for t in FORM_TABLES_QUICK)
     assert len(prio_vectors(3)) == 13 and len(prio_vectors(4)) == 75
     assert len(assignments(4, MAIN)) == 6 ** 4 and assignments(3, MAIN)[0] == ['ok'] * 3
 
@@ -2089,6 +2267,42 @@ def batch_thorough_alphabet():
              'XYWZV', 'XYWZVU:4']
     return ([B(k) for k in keys] + BATCH_PREP + [Q('gettransactions', 'W20', 'H'), Q('getutxos', 'Z', 'H'),
                                                  Q('gettransactions', 'Y1', 'H'), B('ZWY:1', 'F')] + BATCH_FAULTS)
+
+
+# answers of a responding provider that the cache refuses to store: a provider's copy of a confirmed transaction
+# lacks the input values, the block time or the block height (FORMS).  The query succeeds, the cache stays partly
+# filled, and every later query of the history must still return what a responding provider returns (or fail) -
+# never the cached part alone.  One forms table per history: which transaction of the chain TC < TA < TB < TD is
+# incomplete (the newest / the oldest / a middle one of an address history, all of them) and from which provider
+# (all, or only the first one, so that the event's provider health decides whether the complete copy arrives).
+INCOMPLETE_EVENTS = [Q('gettransactions', 'Y20', 'H'), Q('gettransactions', 'Y20', 'F'),
+                     Q('gettransactions', 'Y20', 'D'), Q('gettransactions', 'X20', 'H'),
+                     Q('gettransactions', 'X20', 'D'), Q('gettransactions', 'X2', 'H'), Q('getbalance', 'Y', 'H'),
+                     Q('getbalance', 'Y', 'D'), Q('getutxos', 'Y', 'H'), Q('gettransaction', 'D', 'H'),
+                     Q('gettransaction', 'D', 'D'), Q('getblock', '103', 'H'), ['R', 'H'], ['T', 61]]
+INCOMPLETE_REDUCED = [Q('gettransactions', 'Y20', 'H'), Q('gettransactions', 'Y20', 'D'), Q('getbalance', 'Y', 'H'),
+                      Q('gettransactions', 'X20', 'H'), ['T', 61]]
+FORM_TABLES_QUICK = [{'TD': 'noval'}, {'TA': 'noval'}, {'TD': 'nodate'}, {'TD': 'noheight'},
+                     {'TD': ['noval', 'full', 'full']}, {'TA': 'noval', 'TB': 'noval', 'TD': 'noval'}]
+PAGE_FORM_TABLES = [{'K2': 'noval'}, {'K4': 'noval'}, {'K0': 'full', 'K1': 'nodate', 'K3': 'noheight'}]
+
+
+def form_tables_thorough():
+    """Every single transaction of TA, TB, TD in every incomplete form, from all providers / from the first provider
+    only / from all but the first; every pair of them without input values; all three in one form."""
+    tabs = []
+    for form in FORMS[1:]:
+        for name in ('TA', 'TB', 'TD'):
+            tabs.append({name: form})
+    for name in ('TA', 'TB', 'TD'):
+        tabs.append({name: ['noval', 'full', 'full']})
+        tabs.append({name: ['full', 'noval', 'noval']})
+    tabs.append({'TD': ['nodate', 'noval', 'full']})
+    for a, b in (('TA', 'TB'), ('TA', 'TD'), ('TB', 'TD')):
+        tabs.append({a: 'noval', b: 'noval'})
+    for form in FORMS[1:]:
+        tabs.append({'TA': form, 'TB': form, 'TD': form})
+    return tabs
 
 
 def histories(alphabet, length):
@@ -2316,6 +2530,31 @@ def run(ctx):
     bounds['cache_history_events_reduced'] = REDUCED
     if _want(ctx, 'hist'):
         ctx.pmap('hist', cases, chunk=1)
+    # ------------------------------------------------------------------ provider answers the cache refuses to store
+    cases = []
+    ib = {}
+    tabs = FORM_TABLES_QUICK if q else form_tables_thorough()
+    plan = [('incomplete', t, {}, INCOMPLETE_EVENTS, 2) for t in tabs]
+    deep = [FORM_TABLES_QUICK[0], FORM_TABLES_QUICK[4]]     # the newest transaction, from all / from the first provider
+    plan += [('incomplete', t, {'max_errors': 4}, INCOMPLETE_REDUCED, 3 if q else 4)
+             for t in (deep[:1] if q else deep + FORM_TABLES_QUICK[5:])]
+    if not q:
+        plan += [('incomplete', t, {}, INCOMPLETE_EVENTS, 3) for t in deep]
+        plan += [('incomplete', t, {'max_errors': 2}, INCOMPLETE_EVENTS, 2) for t in FORM_TABLES_QUICK]
+        plan += [('incomplete', t, {'min_providers': 2}, INCOMPLETE_EVENTS, 2) for t in FORM_TABLES_QUICK[:2]]
+    # the request windows into the five-transaction block when one transaction of the block cannot be cached
+    plan += [('page', t, {}, REDUCED['page'] if q else FAMILIES['page'], 2) for t in PAGE_FORM_TABLES]
+    for fam, tab, cfg, alpha, ln in plan:
+        hs = histories(alpha, ln)
+        for ch in _chunks(hs, 24):
+            cases.append({'family': fam, 'net': NET, 'cfg': cfg, 'forms': tab, 'hists': ch})
+        ib['%s/%s/%s' % (fam, forms_tag(tab), json.dumps(cfg, sort_keys=True))] = '%d events ^ %d = %d histories' % (
+            len(alpha), ln, len(hs))
+    bounds['incomplete_provider_answers'] = {
+        'forms': list(FORMS), 'form_tables': [forms_tag(t) for t in tabs], 'histories': ib,
+        'events': INCOMPLETE_EVENTS, 'events_reduced': INCOMPLETE_REDUCED}
+    if _want(ctx, 'incomplete'):
+        ctx.pmap('incomplete', cases, chunk=1)
     if _want(ctx, 'ctor'):
         ctx.pmap('ctor', [{'min_providers': 1, 'max_providers': None}, {'min_providers': 2, 'max_providers': 1},
                            {'min_providers': 2, 'max_providers': None}, {'min_providers': 1, 'max_providers': 1}])
